@@ -17,7 +17,7 @@ use crate::mocknode as mk;
 use crate::mocknode::{BatchStmt, Col, Parsed, ResultMeta};
 use crate::rng::Rng;
 use crate::{Ctx, Tier};
-use scylla::frame::types::Consistency;
+use scylla::frame::types::{Consistency, SerialConsistency};
 use scylla::response::{PagingState, PagingStateResponse};
 use scylla::statement::batch::{Batch, BatchType};
 use scylla::statement::prepared::PreparedStatement;
@@ -52,11 +52,24 @@ struct SrvStmt {
     prep_fail: bool,
 }
 
+#[derive(Clone, Copy, PartialEq, Eq, Debug)]
+enum Ov {
+    PrepVoid,
+    PrepCount,
+    ExecError,
+    ExecVoid,
+    Malformed,
+    ForceMeta,
+    ForceNoMeta,
+}
+
 struct NodeState {
     ext: bool,
+    gen_ts: bool,
     prepared: Vec<(Vec<u8>, usize)>,
     st: Vec<SrvStmt>,
     liar: bool,
+    ov: Option<Ov>,
 }
 
 const T_INT: u16 = 0x0009;
@@ -115,11 +128,14 @@ enum Answer {
         cols: Vec<Col>,
         more: Option<Vec<u8>>,
         rows: Vec<Vec<TV>>,
+        /// produced under a byzantine override (outside the server assumption)
+        byz: bool,
     },
     Prepared {
         id: Vec<u8>,
         mid: Option<Vec<u8>>,
         no_meta: bool,
+        col_count: usize,
         cols: Vec<Col>,
     },
 }
@@ -147,9 +163,17 @@ impl NodeState {
                 if ss.prep_fail {
                     return Answer::Error(0x2200);
                 }
+                if self.ov == Some(Ov::PrepVoid) {
+                    self.ov = None;
+                    return Answer::Void;
+                }
+                let count = self.ov == Some(Ov::PrepCount);
+                if count {
+                    self.ov = None;
+                }
                 let id = format!("q{}v{}", s, ss.idv).into_bytes();
                 self.prepared.insert(0, (id.clone(), s));
-                let normal = ss.kind == Kind::Normal;
+                let normal = ss.kind == Kind::Normal && !count;
                 let mid = if !self.ext {
                     None
                 } else if ss.kind == Kind::Late0 {
@@ -157,12 +181,22 @@ impl NodeState {
                 } else {
                     Some(shape_mid(ss.shape))
                 };
-                Answer::Prepared { id, mid, no_meta: !normal, cols: if normal { shape_cols(ss.shape) } else { vec![] } }
+                let real = shape_cols(ss.shape);
+                Answer::Prepared { id, mid, no_meta: !normal, col_count: if normal || count { real.len() } else { 0 }, cols: if normal { real } else { vec![] } }
             }
             Parsed::Execute { id, result_metadata_id, params } => {
                 let Some(s) = self.lookup(id) else {
                     return Answer::Unprepared(if self.liar { b"bogus".to_vec() } else { id.clone() });
                 };
+                let ov = self.ov;
+                if matches!(ov, Some(Ov::ExecError | Ov::ExecVoid | Ov::Malformed | Ov::ForceMeta | Ov::ForceNoMeta)) {
+                    self.ov = None;
+                }
+                match ov {
+                    Some(Ov::ExecError) => return Answer::Error(0x1001),
+                    Some(Ov::ExecVoid) => return Answer::Void,
+                    _ => {}
+                }
                 let shape = self.st[s].shape;
                 let cols = shape_cols(shape);
                 let cur_mid = shape_mid(shape);
@@ -182,10 +216,16 @@ impl NodeState {
                         (vec![row_of(&cols, v, page)], if page < 2 { Some(format!("p{}", page + 1).into_bytes()) } else { None })
                     }
                 };
-                if changed {
-                    Answer::Rows { no_meta: false, new_id: Some(cur_mid), cols, more, rows }
+                if ov == Some(Ov::Malformed) && self.ext {
+                    Answer::Rows { no_meta: true, new_id: Some(cur_mid), cols, more, rows, byz: true }
+                } else if ov == Some(Ov::ForceNoMeta) {
+                    Answer::Rows { no_meta: true, new_id: None, cols, more, rows, byz: true }
+                } else if changed {
+                    Answer::Rows { no_meta: false, new_id: Some(cur_mid), cols, more, rows, byz: false }
+                } else if params.skip_metadata && ov != Some(Ov::ForceMeta) {
+                    Answer::Rows { no_meta: true, new_id: None, cols, more, rows, byz: false }
                 } else {
-                    Answer::Rows { no_meta: params.skip_metadata, new_id: None, cols, more, rows }
+                    Answer::Rows { no_meta: false, new_id: None, cols, more, rows, byz: ov == Some(Ov::ForceMeta) }
                 }
             }
             Parsed::Batch { statements, .. } => {
@@ -208,7 +248,7 @@ fn encode(a: &Answer) -> (u8, Vec<u8>) {
         Answer::Unprepared(id) => (mk::RESP_ERROR, mk::body_unprepared(id)),
         Answer::Error(c) => (mk::RESP_ERROR, mk::body_error(*c, "scripted", &[])),
         Answer::Void => (mk::RESP_RESULT, mk::body_void()),
-        Answer::Rows { no_meta, new_id, cols, more, rows } => {
+        Answer::Rows { no_meta, new_id, cols, more, rows, .. } => {
             let rm = ResultMeta {
                 cols: if *no_meta { None } else { Some(cols.clone()) },
                 col_count: cols.len() as i32,
@@ -218,8 +258,8 @@ fn encode(a: &Answer) -> (u8, Vec<u8>) {
             let cells: Vec<Vec<Option<Vec<u8>>>> = rows.iter().map(|r| r.iter().map(|c| Some(c.bytes())).collect()).collect();
             (mk::RESP_RESULT, mk::body_rows(&rm, &cells))
         }
-        Answer::Prepared { id, mid, no_meta, cols } => {
-            let rm = ResultMeta { cols: if *no_meta { None } else { Some(cols.clone()) }, col_count: cols.len() as i32, ..Default::default() };
+        Answer::Prepared { id, mid, no_meta, col_count, cols } => {
+            let rm = ResultMeta { cols: if *no_meta { None } else { Some(cols.clone()) }, col_count: *col_count as i32, ..Default::default() };
             let bind = [Col { name: "v".to_owned(), type_id: T_INT }];
             (mk::RESP_RESULT, mk::body_prepared(id, mid.as_deref(), &bind, &[], &rm))
         }
@@ -276,26 +316,27 @@ fn show_req(node: usize, p: &Parsed) -> String {
     match p {
         Parsed::Prepare { text } => format!(">n{} PREP {}", node, text),
         Parsed::Execute { id, result_metadata_id, params } => format!(
-            ">n{} EXEC id={} mid={} skip={} v={} cl={} ts={} pg={} ps={}",
+            ">n{} EXEC id={} mid={} skip={} v={} cl={} scl={} ts={} pg={} ps={}",
             node,
             ascii(id),
             show_opt_id(result_metadata_id),
             params.skip_metadata as u8,
             if params.values.is_empty() { "-".to_owned() } else { params.values.iter().map(val_i32).collect::<Vec<_>>().join(",") },
             params.consistency,
+            opt(&params.serial_consistency),
             opt(&params.timestamp),
             opt(&params.page_size),
             params.paging_state.as_ref().map(|b| ascii(b)).unwrap_or_else(|| "-".to_owned()),
         ),
-        Parsed::Batch { statements, consistency, timestamp, .. } => {
+        Parsed::Batch { statements, consistency, serial_consistency, timestamp, .. } => {
             let items: Vec<String> = statements
                 .iter()
                 .map(|s| match s {
-                    BatchStmt::Prepared(id, v) => format!("{}/{}", ascii(id), v.first().map(val_i32).unwrap_or_else(|| "-".to_owned())),
+                    BatchStmt::Prepared(id, v) => format!("{}/{}", ascii(id), v.iter().map(val_i32).collect::<Vec<_>>().join("+")),
                     BatchStmt::Query(t, _) => format!("query:{}", t),
                 })
                 .collect();
-            format!(">n{} BATCH {} cl={} ts={}", node, if items.is_empty() { "-".to_owned() } else { items.join(",") }, consistency, opt(timestamp))
+            format!(">n{} BATCH {} cl={} scl={} ts={}", node, if items.is_empty() { "-".to_owned() } else { items.join(",") }, consistency, opt(serial_consistency), opt(timestamp))
         }
         other => format!(">n{} OTHER {:?}", node, std::mem::discriminant(other)),
     }
@@ -307,11 +348,16 @@ fn show_answer(a: &Answer) -> String {
         Answer::Error(c) => format!("<error:{}", c),
         Answer::Void => "<void".to_owned(),
         Answer::Rows { no_meta, new_id, cols, .. } => {
-            let m = if *no_meta { "nometa".to_owned() } else if let Some(i) = new_id { format!("meta+{}", ascii(i)) } else { "meta".to_owned() };
+            let m = match (no_meta, new_id) {
+                (true, Some(i)) => format!("nometa+{}", ascii(i)),
+                (true, None) => "nometa".to_owned(),
+                (false, Some(i)) => format!("meta+{}", ascii(i)),
+                (false, None) => "meta".to_owned(),
+            };
             format!("<rows:{}:{}", m, cols.len())
         }
-        Answer::Prepared { id, mid, no_meta, cols } => {
-            format!("<prepared:{}:{}:{}", ascii(id), show_opt_id(mid), if *no_meta { "nometa".to_owned() } else { show_cols_mk(cols) })
+        Answer::Prepared { id, mid, no_meta, col_count, cols } => {
+            format!("<prepared:{}:{}:{}", ascii(id), show_opt_id(mid), if *no_meta { format!("nometa{}", col_count) } else { show_cols_mk(cols) })
         }
     }
 }
@@ -481,17 +527,29 @@ enum CState {
 struct ExecInfo {
     obj: usize,
     handle: PreparedStatement,
-    value: i32,
+    values: Vec<i32>,
     cl: u16,
+    scl: Option<u16>,
+    /// the statement's own timestamp
     ts: Option<i64>,
     pg: Option<i32>,
     ps: Option<Vec<u8>>,
 }
 
+/// what the timestamp of a request must be: the statement's own, else one from the generator iff the connection
+/// has one (the scripted generator hands out 1_000_000, 1_000_001, ...)
+fn ts_ok(own: Option<i64>, has_gen: bool, seen: Option<i64>) -> bool {
+    match (own, has_gen) {
+        (Some(t), _) => seen == Some(t),
+        (None, true) => seen.is_some_and(|t| t >= 1_000_000),
+        (None, false) => seen.is_none(),
+    }
+}
+
 enum OpKind {
     Fresh { slot: usize },
     Exec(Box<ExecInfo>),
-    Batch { items: Vec<(usize, PreparedStatement, i32)>, cl: u16, ts: Option<i64> },
+    Batch { items: Vec<(usize, PreparedStatement, i32)>, cl: u16, scl: Option<u16>, ts: Option<i64> },
 }
 
 struct OpRec {
@@ -499,6 +557,8 @@ struct OpRec {
     node: usize,
     frames: Vec<Parsed>,
     answers: Vec<Answer>,
+    /// per frame: the most recent announcement for the executed statement object when the frame arrived
+    latest_at_build: Vec<Vec<(String, String)>>,
 }
 
 struct Caller {
@@ -508,17 +568,32 @@ struct Caller {
 
 /// Oracle bookkeeping per statement object.
 struct ObjInfo {
-    /// every column set a server announced to this client for this object
-    announced: Vec<Vec<(String, String)>>,
+    /// the columns most recently announced to this client for this object: by the creating PREPARED, by a
+    /// METADATA_CHANGED response, or by a re-PREPARED that carried columns (on any connection), in delivery order
+    latest: Vec<(String, String)>,
+    /// a byzantine PREPARED (NO_METADATA with a column count) was delivered for it: no decode claims
+    byz: bool,
     /// set when a METADATA_CHANGED response was delivered for it: (new id, new columns non-empty)
     expect_mid: Option<(Vec<u8>, bool)>,
+}
+
+/// The k-th draw (over all connections of a case) is 1_000_000 + k.
+struct ScriptedGen(Arc<std::sync::atomic::AtomicI64>);
+
+impl scylla::policies::timestamp_generator::TimestampGenerator for ScriptedGen {
+    fn next_timestamp(&self) -> i64 {
+        1_000_000 + self.0.fetch_add(1, std::sync::atomic::Ordering::SeqCst)
+    }
 }
 
 /// Per-process infrastructure kept across cases (no socket churn): 8 listeners (4 node slots with and 4
 /// without the extension), lazily opened caller connections, the event channel.
 struct Net {
     nets: Vec<NodeNet>,
-    conns: HashMap<(usize, usize), (Arc<VerifConn>, usize)>,
+    /// (caller, listener, with timestamp generator) -> connection
+    conns: HashMap<(usize, usize, bool), (Arc<VerifConn>, usize)>,
+    /// draws from the scripted timestamp generator shared by all generator connections (reset per case)
+    ts_ctr: Arc<std::sync::atomic::AtomicI64>,
     /// [listener][connection] -> caller
     owners: Vec<Vec<usize>>,
     ev_tx: UnboundedSender<Ev>,
@@ -537,6 +612,8 @@ struct World<'a> {
     callers: Vec<Caller>,
     fails: Vec<String>,
     hang: bool,
+    /// the object touched by the delivery in progress got a byzantine PREPARED (no claims about its metadata)
+    target_byz: bool,
 }
 
 enum Got {
@@ -545,17 +622,18 @@ enum Got {
     Hang,
 }
 
+/// every field of the re-sent EXECUTE equals the first one's, except the skip-metadata flag and the presented
+/// result-metadata id (which the re-preparation dictates)
 fn same_exec_params(a: &Parsed, b: &Parsed) -> bool {
     match (a, b) {
         (Parsed::Execute { id: i1, params: p1, .. }, Parsed::Execute { id: i2, params: p2, .. }) => {
-            i1 == i2
-                && p1.values == p2.values
-                && p1.unset == p2.unset
-                && p1.consistency == p2.consistency
-                && p1.serial_consistency == p2.serial_consistency
-                && p1.timestamp == p2.timestamp
-                && p1.page_size == p2.page_size
-                && p1.paging_state == p2.paging_state
+            let norm = |p: &mk::QueryParams| {
+                let mut q = p.clone();
+                q.skip_metadata = false;
+                q.flags &= !0x02;
+                q
+            };
+            i1 == i2 && norm(p1) == norm(p2)
         }
         _ => false,
     }
@@ -568,16 +646,21 @@ impl World<'_> {
 
     async fn conn_for(&mut self, k: usize, node: usize) -> Result<Arc<VerifConn>, String> {
         let l = self.lid[node];
-        if let Some((c, _)) = self.net.conns.get(&(k, l)) {
+        let gen_ts = self.srv[node].gen_ts;
+        if let Some((c, _)) = self.net.conns.get(&(k, l, gen_ts)) {
             return Ok(Arc::clone(c));
         }
         let idx = self.net.owners[l].len();
         self.net.owners[l].push(k);
-        let c = Arc::new(VerifConn::open(self.net.nets[l].addr, VerifConnOptions::default()).await?);
+        let mut options = VerifConnOptions::default();
+        if gen_ts {
+            options.timestamp_generator = Some(Arc::new(ScriptedGen(Arc::clone(&self.net.ts_ctr))));
+        }
+        let c = Arc::new(VerifConn::open(self.net.nets[l].addr, options).await?);
         if c.metadata_id_supported() != self.srv[node].ext {
             self.fail(format!("connection to node {} negotiated ext={} but the node offers {}", node, c.metadata_id_supported(), self.srv[node].ext));
         }
-        self.net.conns.insert((k, l), (Arc::clone(&c), idx));
+        self.net.conns.insert((k, l, gen_ts), (Arc::clone(&c), idx));
         Ok(c)
     }
 
@@ -628,14 +711,16 @@ impl World<'_> {
             }
             OpKind::Exec(e) => match n {
                 0 => {
+                    let has_gen = self.srv[op.node].gen_ts;
                     let ok = matches!(parsed, Parsed::Execute { id, params, .. }
                         if id[..] == e.handle.get_id()[..]
-                            && params.values == vec![Some(e.value.to_be_bytes().to_vec())]
+                            && params.values == e.values.iter().map(|v| Some(v.to_be_bytes().to_vec())).collect::<Vec<_>>()
+                            && params.unset.iter().all(|u| !u)
                             && params.consistency == e.cl
-                            && params.timestamp == e.ts
+                            && ts_ok(e.ts, has_gen, params.timestamp)
                             && params.page_size == e.pg
                             && params.paging_state == e.ps
-                            && params.serial_consistency.is_none());
+                            && params.serial_consistency == e.scl);
                     if !ok {
                         fails.push(format!("EXECUTE does not say what the caller asked for: {}", show_req(node, parsed)));
                     }
@@ -657,18 +742,19 @@ impl World<'_> {
                         _ => fails.push("third frame although re-preparation did not succeed".to_owned()),
                     }
                     if !same_exec_params(&op.frames[0], parsed) {
-                        fails.push(format!("re-sent EXECUTE differs from the original in id/values/consistency/timestamp/paging: {} vs {}", show_req(node, &op.frames[0]), show_req(node, parsed)));
+                        fails.push(format!("re-sent EXECUTE differs from the original in id/values/consistency/serial consistency/timestamp/page size/paging state: {} vs {}", show_req(node, &op.frames[0]), show_req(node, parsed)));
                     }
                 }
                 _ => fails.push(format!("execution sent a frame #{}: {}", n, show_req(node, parsed))),
             },
-            OpKind::Batch { items, cl, ts } => {
+            OpKind::Batch { items, cl, scl, ts } => {
                 if n % 2 == 0 {
+                    let has_gen = self.srv[op.node].gen_ts;
                     let ok = matches!(parsed, Parsed::Batch { statements, consistency, timestamp, serial_consistency, .. }
                         if statements.len() == items.len()
                             && statements.iter().zip(items.iter()).all(|(s, (_, h, v))| matches!(s, BatchStmt::Prepared(id, vals)
                                 if id[..] == h.get_id()[..] && *vals == vec![Some(v.to_be_bytes().to_vec())]))
-                            && consistency == cl && timestamp == ts && serial_consistency.is_none());
+                            && consistency == cl && ts_ok(*ts, has_gen, *timestamp) && serial_consistency == scl);
                     if !ok {
                         fails.push(format!("BATCH does not say what the caller asked for: {}", show_req(node, parsed)));
                     }
@@ -727,6 +813,7 @@ impl World<'_> {
         match &op.kind {
             OpKind::Fresh { .. } => match (last, out) {
                 (Some(Answer::Prepared { .. }), Out::Prepared(_)) => {}
+                (Some(Answer::Void), Out::Err(l)) if l.starts_with("UnexpectedResponse") => {}
                 (Some(Answer::Error(c)), Out::Err(l)) if *l == format!("DbError:{}", c) => {}
                 _ => fails.push(format!("prepare: outcome {} does not fit the node's answer", show_out(out))),
             },
@@ -750,6 +837,7 @@ impl World<'_> {
                                     fails.push(format!("re-preparation failed with {} but the caller got {}", c, show_out(out)));
                                 }
                             }
+                            Some(Answer::Void) if label.is_some_and(|l| l.starts_with("UnexpectedResponse")) => {}
                             _ => fails.push(format!("execution ended after re-preparation with {}", show_out(out))),
                         }
                         None
@@ -767,6 +855,9 @@ impl World<'_> {
                         // second UNPREPARED in a row: the driver re-sends once only
                         (Answer::Unprepared(_), Out::Err(l)) if l == "DbError:9472" && op.answers.len() == 3 => {}
                         (Answer::Unprepared(_), Out::Err(l)) if l == "DbError:9472" => {}
+                        (Answer::Rows { no_meta: true, new_id: Some(_), .. }, Out::Err(l)) if l == "CqlResultParseError" || l == "CqlResponseParseError" => {}
+                        (Answer::Rows { byz: true, .. }, Out::Rows { .. }) => {}
+                        (Answer::Rows { .. }, Out::Rows { .. }) if self.objs[e.obj].byz => {}
                         (Answer::Rows { no_meta, cols, more, rows, .. }, Out::Rows { cols: used, rows: decoded, more: more2 }) => {
                             let enc = cols_of_mk(cols);
                             let expected: Vec<Vec<String>> = rows.iter().map(|r| r.iter().map(|c| c.show()).collect()).collect();
@@ -782,10 +873,11 @@ impl World<'_> {
                                     fails.push("decoded rows differ from the rows the node encoded".to_owned());
                                 }
                             } else {
-                                // no extension, metadata omitted as requested: the cached metadata must be one the
-                                // server announced for this statement (CQL v4 cannot do better, prepared.rs:167-198)
-                                if !self.objs[e.obj].announced.contains(used) {
-                                    fails.push(format!("rows decoded with [{}], which no server ever announced for this statement", show_cols(used)));
+                                // no extension, metadata omitted as requested: the rows must be decoded with the metadata
+                                // most recently announced for this statement when this EXECUTE was built
+                                let latest = op.latest_at_build.last().cloned().unwrap_or_default();
+                                if *used != latest {
+                                    fails.push(format!("F-C14-1 connection without the extension, use_cached_result_metadata: rows sent without metadata (encoded under [{}]) were decoded with [{}], but the metadata most recently announced for this statement when the EXECUTE was built was [{}]", show_cols(&enc), show_cols(used), show_cols(&latest)));
                                 } else if *used == enc && decoded.as_ref() != Some(&expected) {
                                     fails.push("decoded rows differ from the rows the node encoded".to_owned());
                                 }
@@ -796,6 +888,10 @@ impl World<'_> {
                 }
             }
             OpKind::Batch { items, .. } => match (last, out) {
+                (Some(Answer::Void), Out::Err(l)) if l.starts_with("UnexpectedResponse") && matches!(op.frames.last(), Some(Parsed::Prepare { .. })) => {}
+                (Some(Answer::Void), Out::Void) if matches!(op.frames.last(), Some(Parsed::Prepare { .. })) => {
+                    fails.push("batch reported success although its re-preparation was answered with a non-PREPARED result".to_owned())
+                }
                 (Some(Answer::Void), Out::Void) => {}
                 (Some(Answer::Error(c)), Out::Err(l)) if *l == format!("DbError:{}", c) => {}
                 (Some(Answer::Unprepared(id)), Out::Err(l)) if l == "RepreparedIdMissingInBatch" && !items.iter().any(|(_, h, _)| h.get_id()[..] == id[..]) => {}
@@ -830,14 +926,19 @@ impl World<'_> {
             OpKind::Fresh { .. } => None,
         };
         let Some((obj, handle)) = target else { return (None, vec![]) };
+        self.target_byz = self.objs[obj].byz || matches!(answer, Answer::Prepared { no_meta: true, col_count, .. } if *col_count > 0);
         let before = cur_cols(&handle);
         match answer {
-            Answer::Rows { new_id: Some(mid), cols, .. } => {
-                self.objs[obj].announced.push(cols_of_mk(cols));
+            Answer::Rows { no_meta: false, new_id: Some(mid), cols, .. } if ext => {
+                self.objs[obj].latest = cols_of_mk(cols);
                 self.objs[obj].expect_mid = Some((mid.clone(), !cols.is_empty()));
             }
-            Answer::Prepared { id, mid: Some(_), cols, .. } if ext && id[..] == handle.get_id()[..] => {
-                self.objs[obj].announced.push(cols_of_mk(cols));
+            Answer::Prepared { id, no_meta, col_count, cols, .. } if id[..] == handle.get_id()[..] => {
+                if !*no_meta {
+                    self.objs[obj].latest = cols_of_mk(cols);
+                } else if *col_count > 0 {
+                    self.objs[obj].byz = true;
+                }
                 self.objs[obj].expect_mid = None;
             }
             Answer::Rows { no_meta: true, .. } => self.objs[obj].expect_mid = None,
@@ -854,7 +955,11 @@ impl World<'_> {
             && id[..] == handle.get_id()[..]
         {
             // nonempty_never_replaced_by_empty
-            if cols.is_empty() && !before.is_empty() && after != before {
+            let announced_count = match answer {
+                Answer::Prepared { col_count, .. } => *col_count,
+                _ => 0,
+            };
+            if cols.is_empty() && announced_count == 0 && !before.is_empty() && after != before {
                 self.fail(format!("re-preparation announced no columns and the non-empty current metadata [{}] was replaced by [{}]", show_cols(before), show_cols(&after)));
             }
             // the re-sent EXECUTE presents the id the re-preparation announced
@@ -866,7 +971,10 @@ impl World<'_> {
                 self.fail(format!("re-preparation announced result metadata id {} with columns, but the re-sent EXECUTE presents {} skip={}", ascii(mid), show_opt_id(result_metadata_id), params.skip_metadata));
             }
         }
-        if let Answer::Rows { new_id: Some(_), cols, .. } = answer {
+        if let Answer::Rows { no_meta: false, new_id: Some(_), cols, .. } = answer
+            && ext
+            && !self.target_byz
+        {
             // after a METADATA_CHANGED response the statement's current columns are the announced ones
             if after != cols_of_mk(cols) {
                 self.fail(format!("METADATA_CHANGED announced [{}] but the statement's current columns are [{}]", show_cols_mk(cols), show_cols(&after)));
@@ -897,8 +1005,13 @@ impl World<'_> {
                     self.after_delivery(k, a, h, &before, Some(&parsed));
                 }
                 out.push(format!("{}{}", show_req(node, &parsed), suffix(&handle)));
+                let latest = match self.callers[k].op.as_ref().map(|o| &o.kind) {
+                    Some(OpKind::Exec(e)) => self.objs[e.obj].latest.clone(),
+                    _ => vec![],
+                };
                 if let Some(op) = self.callers[k].op.as_mut() {
                     op.frames.push(parsed.clone());
+                    op.latest_at_build.push(latest);
                 }
                 self.callers[k].state = CState::Req { node, conn, stream, parsed };
             }
@@ -910,7 +1023,8 @@ impl World<'_> {
                 out.push(format!("{}{}", show_out(&o), suffix(&handle)));
                 if let (Out::Prepared(ps), Some(OpRec { kind: OpKind::Fresh { slot }, .. })) = (o, self.callers[k].op.as_ref()) {
                     let obj = self.objs.len();
-                    self.objs.push(ObjInfo { announced: vec![cur_cols(&ps)], expect_mid: None });
+                    let byz = matches!(self.callers[k].op.as_ref().and_then(|o| o.answers.last()), Some(Answer::Prepared { no_meta: true, col_count, .. }) if *col_count > 0);
+                    self.objs.push(ObjInfo { latest: cur_cols(&ps), byz, expect_mid: None });
                     self.slots[*slot] = Some((obj, *ps));
                 }
                 self.callers[k].op = None;
@@ -1002,10 +1116,13 @@ async fn run_case(case: &str, ctx: &mut Ctx, net: &mut Net, clean: &mut bool) ->
     let mut lid = Vec::new();
     let mut srv = Vec::new();
     let mut used = [0usize; 2];
+    net.ts_ctr.store(0, std::sync::atomic::Ordering::SeqCst);
     for n in w[1].split(',') {
-        let ext = match n {
-            "E" => true,
-            "N" => false,
+        let (ext, gen_ts) = match n {
+            "E" => (true, false),
+            "N" => (false, false),
+            "G" => (true, true),
+            "H" => (false, true),
             _ => return "bad-case".to_owned(),
         };
         if used[ext as usize] >= SLOTS {
@@ -1013,7 +1130,7 @@ async fn run_case(case: &str, ctx: &mut Ctx, net: &mut Net, clean: &mut bool) ->
         }
         lid.push(ext as usize * SLOTS + used[ext as usize]);
         used[ext as usize] += 1;
-        srv.push(NodeState { ext, prepared: vec![], st: stmts.clone(), liar: false });
+        srv.push(NodeState { ext, gen_ts, prepared: vec![], st: stmts.clone(), liar: false, ov: None });
     }
     let n_nodes = lid.len();
     let n_stmts = stmts.len();
@@ -1026,6 +1143,7 @@ async fn run_case(case: &str, ctx: &mut Ctx, net: &mut Net, clean: &mut bool) ->
         callers: (0..4).map(|_| Caller { state: CState::Idle, op: None }).collect(),
         fails: Vec::new(),
         hang: false,
+        target_byz: false,
     };
     let mut out: Vec<String> = Vec::new();
     let steps: Vec<&str> = w[3].split(';').filter(|s| !s.is_empty()).collect();
@@ -1067,11 +1185,21 @@ async fn run_case(case: &str, ctx: &mut Ctx, net: &mut Net, clean: &mut bool) ->
                         };
                         let _ = tx.send(Ev::Done { caller: k, out: o });
                     });
-                    world.callers[k].op = Some(OpRec { kind: OpKind::Fresh { slot: s }, node: n, frames: vec![], answers: vec![] });
+                    world.callers[k].op = Some(OpRec { kind: OpKind::Fresh { slot: s }, node: n, frames: vec![], answers: vec![], latest_at_build: vec![] });
                     world.settle(k, &mut out, None).await;
                 }
-                ('A', ["x", s, n, u, cl, ts, pg, ps]) => {
-                    let (s, n, u, cl) = (num(s)?, num(n)?, bool01(u)?, num(cl)? as u16);
+                ('A', ["x", s, n, u, cl, scl, ts, pg, ps, nv]) => {
+                    let (s, n, u, cl, nv) = (num(s)?, num(n)?, bool01(u)?, num(cl)? as u16, num(nv)?);
+                    let scl: Option<u16> = parse_opt(scl)?;
+                    let serial = match scl {
+                        None => None,
+                        Some(8) => Some(SerialConsistency::Serial),
+                        Some(9) => Some(SerialConsistency::LocalSerial),
+                        _ => return Err(()),
+                    };
+                    if nv > 4 {
+                        return Err(());
+                    }
                     let ts: Option<i64> = parse_opt(ts)?;
                     let pg: Option<i32> = parse_opt(pg)?;
                     let ps: Option<Vec<u8>> = if *ps == "-" { None } else { Some(ps.as_bytes().to_vec()) };
@@ -1091,9 +1219,12 @@ async fn run_case(case: &str, ctx: &mut Ctx, net: &mut Net, clean: &mut bool) ->
                     handle.set_use_cached_result_metadata(u);
                     handle.set_consistency(cons);
                     handle.set_timestamp(ts);
-                    let value = (10 * idx) as i32;
+                    handle.set_serial_consistency(serial);
+                    let vals: Vec<i32> = (0..nv).map(|j| (10 * idx + j) as i32).collect();
                     let mut values = SerializedValues::new();
-                    values.add_value(&value, &ColumnType::Native(NativeType::Int)).map_err(|_| ())?;
+                    for v in &vals {
+                        values.add_value(v, &ColumnType::Native(NativeType::Int)).map_err(|_| ())?;
+                    }
                     let conn = world.conn_for(k, n).await.map_err(|_| ())?;
                     let tx = world.net.ev_tx.clone();
                     let h2 = handle.clone();
@@ -1105,11 +1236,18 @@ async fn run_case(case: &str, ctx: &mut Ctx, net: &mut Net, clean: &mut bool) ->
                         let o = to_out(conn.execute(&h2, &values, pg, paging).await);
                         let _ = tx.send(Ev::Done { caller: k, out: o });
                     });
-                    world.callers[k].op = Some(OpRec { kind: OpKind::Exec(Box::new(ExecInfo { obj, handle, value, cl, ts, pg, ps })), node: n, frames: vec![], answers: vec![] });
+                    world.callers[k].op = Some(OpRec { kind: OpKind::Exec(Box::new(ExecInfo { obj, handle, values: vals, cl, scl, ts, pg, ps })), node: n, frames: vec![], answers: vec![], latest_at_build: vec![] });
                     world.settle(k, &mut out, None).await;
                 }
-                ('A', ["b", n, cl, ts, items]) => {
+                ('A', ["b", n, cl, scl, ts, items]) => {
                     let (n, cl) = (num(n)?, num(cl)? as u16);
+                    let scl: Option<u16> = parse_opt(scl)?;
+                    let serial = match scl {
+                        None => None,
+                        Some(8) => Some(SerialConsistency::Serial),
+                        Some(9) => Some(SerialConsistency::LocalSerial),
+                        _ => return Err(()),
+                    };
                     let ts: Option<i64> = parse_opt(ts)?;
                     let cons = consistency(cl).ok_or(())?;
                     let its: Vec<usize> = if *items == "-" { vec![] } else { items.split(',').map(num).collect::<Result<_, _>>()? };
@@ -1136,6 +1274,7 @@ async fn run_case(case: &str, ctx: &mut Ctx, net: &mut Net, clean: &mut bool) ->
                     }
                     batch.set_consistency(cons);
                     batch.set_timestamp(ts);
+                    batch.set_serial_consistency(serial);
                     let vals: Vec<(i32,)> = resolved.iter().map(|(_, _, v)| (*v,)).collect();
                     let conn = world.conn_for(k, n).await.map_err(|_| ())?;
                     let tx = world.net.ev_tx.clone();
@@ -1146,7 +1285,7 @@ async fn run_case(case: &str, ctx: &mut Ctx, net: &mut Net, clean: &mut bool) ->
                         };
                         let _ = tx.send(Ev::Done { caller: k, out: o });
                     });
-                    world.callers[k].op = Some(OpRec { kind: OpKind::Batch { items: resolved, cl, ts }, node: n, frames: vec![], answers: vec![] });
+                    world.callers[k].op = Some(OpRec { kind: OpKind::Batch { items: resolved, cl, scl, ts }, node: n, frames: vec![], answers: vec![], latest_at_build: vec![] });
                     world.settle(k, &mut out, None).await;
                 }
                 ('S', []) => world.serve(k, &mut out),
@@ -1176,6 +1315,19 @@ async fn run_case(case: &str, ctx: &mut Ctx, net: &mut Net, clean: &mut bool) ->
                     if let Some(x) = world.srv[k].st.get_mut(s) {
                         x.prep_fail = on;
                     }
+                    out.push("e".to_owned());
+                }
+                ('E', ["ov", o]) => {
+                    world.srv[k].ov = Some(match *o {
+                        "pv" => Ov::PrepVoid,
+                        "pc" => Ov::PrepCount,
+                        "er" => Ov::ExecError,
+                        "vo" => Ov::ExecVoid,
+                        "mc" => Ov::Malformed,
+                        "fm" => Ov::ForceMeta,
+                        "fn" => Ov::ForceNoMeta,
+                        _ => return Err(()),
+                    });
                     out.push("e".to_owned());
                 }
                 ('E', ["li", on]) => {
@@ -1237,7 +1389,7 @@ fn new_infra() -> Infra {
         }
         nets
     });
-    Infra { rt, net: Net { nets, conns: HashMap::new(), owners: vec![Vec::new(); 2 * SLOTS], ev_tx, ev_rx } }
+    Infra { rt, net: Net { nets, conns: HashMap::new(), ts_ctr: Arc::new(std::sync::atomic::AtomicI64::new(0)), owners: vec![Vec::new(); 2 * SLOTS], ev_tx, ev_rx } }
 }
 
 pub fn run(case: &str, ctx: &mut Ctx) -> String {
@@ -1260,9 +1412,9 @@ pub fn run(case: &str, ctx: &mut Ctx) -> String {
 /// macro symbols of the exhaustive sequential sweep (one caller, one statement, one node)
 fn symbol(sym: usize, u: u8, a: u8, b: u8) -> String {
     match sym {
-        0 => format!("A0.x.0.0.{}.6.-.-.-;C0", u),
-        1 => format!("A0.x.0.0.{}.1.9.1.p1;C0", u),
-        2 => "A0.b.0.4.3.0;C0".to_owned(),
+        0 => format!("A0.x.0.0.{}.6.-.-.-.-.1;C0", u),
+        1 => format!("A0.x.0.0.{}.1.8.9.1.p1.2;C0", u),
+        2 => "A0.b.0.4.9.3.0;C0".to_owned(),
         3 => "N0.0.0;C0".to_owned(),
         4 => "E0.ev.0".to_owned(),
         5 => format!("E0.sc.0.{}", a),
@@ -1275,13 +1427,22 @@ const CONFIGS: [(&str, u8, u8); 5] = [("n1", 3, 2), ("n3", 4, 1), ("l3", 1, 4), 
 
 fn event_word(rng: &mut Rng, node: usize, n_stmts: usize) -> String {
     let s = rng.below(n_stmts as u64);
-    match rng.below(40) {
+    match rng.below(44) {
         0..=15 => format!("E{}.ev.{}", node, s),
         16..=33 => format!("E{}.sc.{}.{}", node, s, rng.below(6)),
         34 => format!("E{}.ic.{}", node, s),
         35..=36 => format!("E{}.pf.{}.{}", node, s, if rng.chance(1, 3) { 1 } else { 0 }),
         37..=38 => format!("E{}.li.{}", node, if rng.chance(1, 3) { 1 } else { 0 }),
+        39..=42 => format!("E{}.ov.{}", node, rng.pick(&["pv", "pc", "er", "vo", "mc", "fm", "fn"])),
         _ => format!("E{}.ev.{}", node, s),
+    }
+}
+
+fn scl_word(rng: &mut Rng) -> &'static str {
+    match rng.below(4) {
+        0 => "8",
+        1 => "9",
+        _ => "-",
     }
 }
 
@@ -1293,14 +1454,15 @@ fn exec_word(rng: &mut Rng, k: usize, n_stmts: usize, n_nodes: usize) -> String 
         1 => ("2".to_owned(), format!("p{}", 1 + rng.below(2))),
         _ => ("-".to_owned(), "-".to_owned()),
     };
-    format!("A{}.x.{}.{}.{}.{}.{}.{}.{}", k, rng.below(n_stmts as u64), rng.below(n_nodes as u64), rng.below(2), cl, ts, pg, ps)
+    let nv = *rng.pick(&[1u8, 1, 1, 0, 2, 3, 4]);
+    format!("A{}.x.{}.{}.{}.{}.{}.{}.{}.{}.{}", k, rng.below(n_stmts as u64), rng.below(n_nodes as u64), rng.below(2), cl, scl_word(rng), ts, pg, ps, nv)
 }
 
 fn batch_word(rng: &mut Rng, k: usize, n_stmts: usize, n_nodes: usize) -> String {
     let n = 1 + rng.below(3) as usize;
     let items: Vec<String> = (0..n).map(|_| rng.below(n_stmts as u64).to_string()).collect();
     let ts = if rng.chance(1, 3) { rng.below(1000).to_string() } else { "-".to_owned() };
-    format!("A{}.b.{}.{}.{}.{}", k, rng.below(n_nodes as u64), rng.pick(&[1u16, 4, 6]), ts, items.join(","))
+    format!("A{}.b.{}.{}.{}.{}.{}", k, rng.below(n_nodes as u64), rng.pick(&[1u16, 4, 6]), scl_word(rng), ts, items.join(","))
 }
 
 /// random history: per-caller scripts (start, then node/caller steps, then `C`) merged in random order with
@@ -1309,7 +1471,14 @@ fn random_history(rng: &mut Rng, max_len: usize) -> String {
     let n_nodes = 1 + rng.below(3) as usize;
     let n_stmts = 1 + rng.below(3) as usize;
     let n_callers = 1 + rng.below(3) as usize;
-    let nodes: Vec<&str> = (0..n_nodes).map(|_| if rng.chance(2, 3) { "E" } else { "N" }).collect();
+    let nodes: Vec<&str> = (0..n_nodes)
+        .map(|_| match rng.below(9) {
+            0..=3 => "E",
+            4..=5 => "G",
+            6..=7 => "N",
+            _ => "H",
+        })
+        .collect();
     let kinds = ["n1", "n3", "n2", "l3", "z3", "n0", "l1", "z4", "n5"];
     let stmts: Vec<&str> = (0..n_stmts).map(|_| *rng.pick(&kinds)).collect();
     let mut steps: Vec<String> = Vec::new();
@@ -1358,15 +1527,34 @@ fn random_history(rng: &mut Rng, max_len: usize) -> String {
     format!("hist {} {} {}", nodes.join(","), stmts.join(","), steps.join(";"))
 }
 
+/// all interleavings of two step sequences (order within each preserved)
+fn interleavings(a: &[String], b: &[String], acc: &mut Vec<String>, out: &mut Vec<Vec<String>>) {
+    if a.is_empty() && b.is_empty() {
+        out.push(acc.clone());
+        return;
+    }
+    if let Some((h, t)) = a.split_first() {
+        acc.push(h.clone());
+        interleavings(t, b, acc, out);
+        acc.pop();
+    }
+    if let Some((h, t)) = b.split_first() {
+        acc.push(h.clone());
+        interleavings(a, t, acc, out);
+        acc.pop();
+    }
+}
+
 pub fn generate(rng: &mut Rng, tier: Tier, emit: &mut dyn FnMut(String)) {
     let quick = tier == Tier::Quick;
     // 1. exhaustive sequential histories: PREPARE, then every word over the 8 macro symbols up to the bound that
     //    ends in an operation (a trailing event is not observed)
-    for ext in ["E", "N"] {
+    for ext in ["E", "N", "G", "H"] {
         for u in 0..2u8 {
             for (ci, (stmt, a, b)) in CONFIGS.into_iter().enumerate() {
-                // quick: every word of length <= 5; thorough: also length 6 for the plain statement
-                let max_len = if !quick && ci == 0 { 6 } else { 5 };
+                // every word of length <= 5 (generator nodes: <= 4); thorough: also length 6 for the plain statement
+                let with_gen = ext == "G" || ext == "H";
+                let max_len = if with_gen { if quick { 3 } else { 4 } } else if !quick && ci == 0 { 6 } else { 5 };
                 for len in 1..=max_len {
                     let total = 8usize.pow(len as u32);
                     for code in 0..total {
@@ -1383,19 +1571,24 @@ pub fn generate(rng: &mut Rng, tier: Tier, emit: &mut dyn FnMut(String)) {
         }
     }
     // 2. node events INSIDE one operation: before the node sees the first request, between UNPREPARED and the
-    //    re-preparation, between the re-preparation and the re-sent request
-    let inner = ["", "E0.ev.0", "E0.sc.0.A", "E0.ic.0", "E0.pf.0.1", "E0.li.1"];
-    for ext in ["E", "N"] {
+    //    re-preparation, between the re-preparation and the re-sent request (incl. the byzantine one-shot answers)
+    let inner = ["", "E0.ev.0", "E0.sc.0.A", "E0.ic.0", "E0.pf.0.1", "E0.li.1", "E0.ov.pv", "E0.ov.pc", "E0.ov.er", "E0.ov.vo", "E0.ov.mc", "E0.ov.fm", "E0.ov.fn"];
+    for ext in ["E", "N", "G"] {
         for u in 0..2u8 {
             for (stmt, a, _) in CONFIGS {
-                for op in [format!("A0.x.0.0.{}.4.11.1.p2", u), "A0.b.0.1.-.0,0".to_owned()] {
+                for op in [format!("A0.x.0.0.{}.4.9.11.1.p2.2", u), "A0.b.0.1.8.-.0,0".to_owned()] {
                     for warm in [true, false] {
                         for e0 in inner {
                             for e1 in inner {
                                 for e2 in inner {
+                                    // quick tier: at most two of the three slots carry a byzantine answer
+                                    let byz = [e0, e1, e2].iter().filter(|e| e.contains(".ov.")).count();
+                                    if byz > if quick { 1 } else { 2 } || (ext == "G" && byz > 0) {
+                                        continue;
+                                    }
                                     let mut steps = vec!["N0.0.0;C0".to_owned()];
                                     if warm {
-                                        steps.push(format!("A0.x.0.0.{}.6.-.-.-;C0", u));
+                                        steps.push(format!("A0.x.0.0.{}.6.-.-.-.-.1;C0", u));
                                     }
                                     steps.push("E0.ev.0".to_owned());
                                     steps.push(op.clone());
@@ -1405,7 +1598,7 @@ pub fn generate(rng: &mut Rng, tier: Tier, emit: &mut dyn FnMut(String)) {
                                         }
                                         steps.push(tail.to_owned());
                                     }
-                                    steps.push(format!("A0.x.0.0.{}.6.-.-.-;C0", u));
+                                    steps.push(format!("A0.x.0.0.{}.6.-.-.-.-.1;C0", u));
                                     emit(format!("hist {} {} {}", ext, stmt, steps.join(";")));
                                 }
                             }
@@ -1415,8 +1608,80 @@ pub fn generate(rng: &mut Rng, tier: Tier, emit: &mut dyn FnMut(String)) {
             }
         }
     }
-    // 3. random histories: 1-3 nodes (mixed extension support), 1-3 statements, 1-3 concurrent callers
-    let n_random = if quick { 6_000 } else { 120_000 };
+    // 3. two nodes, two statements, sequential: every word of length <= 4 over executions of either statement on
+    //    either node, batches on either node, eviction / schema change of statement 0 on either node
+    for nodes in ["E,E", "E,N", "N,E", "N,N"] {
+        for u in 0..2u8 {
+            let alphabet: Vec<String> = vec![
+                format!("A0.x.0.0.{}.6.-.-.-.-.1;C0", u),
+                format!("A0.x.0.1.{}.6.-.-.-.-.1;C0", u),
+                format!("A0.x.1.0.{}.6.-.-.-.-.1;C0", u),
+                format!("A0.x.1.1.{}.6.-.-.-.-.1;C0", u),
+                "A0.b.0.6.-.-.0,1;C0".to_owned(),
+                "A0.b.1.6.-.-.1,0;C0".to_owned(),
+                "E0.ev.0".to_owned(),
+                "E1.ev.0".to_owned(),
+                "E0.sc.0.3".to_owned(),
+                "E1.sc.0.3".to_owned(),
+            ];
+            let max_len = if quick { 4 } else { 5 };
+            for len in 1..=max_len {
+                let total = alphabet.len().pow(len as u32);
+                for code in 0..total {
+                    let mut c = code;
+                    let syms: Vec<usize> = (0..len).map(|_| { let s = c % alphabet.len(); c /= alphabet.len(); s }).collect();
+                    if *syms.last().unwrap() >= 6 {
+                        continue;
+                    }
+                    let words: Vec<&str> = syms.iter().map(|s| alphabet[*s].as_str()).collect();
+                    emit(format!("hist {} n1,z3 N0.0.0;C0;N0.1.1;C0;{}", nodes, words.join(";")));
+                }
+            }
+        }
+    }
+    // 4. two concurrent callers sharing the statement objects: every interleaving of their first steps
+    //    (start, node answers, response delivered, rest) with one node event at every position
+    let ops = |k: usize, u: u8| -> Vec<Vec<String>> {
+        [format!("A{}.x.0.0.{}.6.-.-.-.-.1", k, u), format!("A{}.x.0.1.{}.6.-.-.-.-.1", k, u), format!("A{}.b.{}.6.-.-.0,1", k, k)]
+            .into_iter()
+            .map(|a| vec![a, format!("S{}", k), format!("R{}", k), format!("C{}", k)])
+            .collect()
+    };
+    let events = ["", "E0.ev.0", "E1.ev.0", "E0.sc.0.3;E1.sc.0.3", "E0.sc.0.3", "E1.sc.0.3"];
+    for nodes in ["E,E", "E,N", "N,N"] {
+        for u in 0..2u8 {
+            for a in ops(0, u) {
+                for b in ops(1, u) {
+                    let mut all = Vec::new();
+                    interleavings(&a, &b, &mut Vec::new(), &mut all);
+                    for (ii, il) in all.iter().enumerate() {
+                        for (ei, ev) in events.iter().enumerate() {
+                            for pos in 0..=il.len() {
+                                // quick tier: a third of the (interleaving, event, position) grid
+                                if quick && (ii + ei + pos) % 3 != 0 {
+                                    continue;
+                                }
+                                if ev.is_empty() && pos > 0 {
+                                    continue;
+                                }
+                                let mut steps: Vec<String> = vec!["N0.0.0;C0;N0.1.1;C0;A0.x.0.0.0.6.-.-.-.-.1;C0".to_owned()];
+                                steps.extend(il[..pos].iter().cloned());
+                                if !ev.is_empty() {
+                                    steps.push((*ev).to_owned());
+                                }
+                                steps.extend(il[pos..].iter().cloned());
+                                steps.push(format!("A0.x.0.0.{}.6.-.-.-.-.1;C0;A1.x.0.1.{}.6.-.-.-.-.1;C1", u, u));
+                                emit(format!("hist {} n1,n3 {}", nodes, steps.join(";")));
+                            }
+                        }
+                    }
+                }
+            }
+        }
+    }
+    // 5. random histories: 1-3 nodes (mixed extension support, with/without timestamp generator), 1-3 statements,
+    //    1-3 concurrent callers
+    let n_random = if quick { 8_000 } else { 150_000 };
     for i in 0..n_random {
         let max = if i % 3 == 0 { 12 } else { 30 };
         emit(random_history(rng, max));
